@@ -125,6 +125,17 @@ func c05Exec(c *hlib.RunCtx, t *simrt.Tape) (*hlib.Violation, int) {
 	case 2:
 		os.WriteFile(w.tele, []byte("not a directory"), 0666)
 	}
+	if dirState == 0 || dirState >= 3 {
+		// the mode file as found: absent, well-formed, cut short (a reader racing a
+		// writer, a full disk, a hand edit) or arbitrary bytes; never "off", which
+		// would leave nothing to do
+		contents := []string{"", "on 2024-01-01", "local", "on 2023-0", "on ", "on 2", "local 2024-01-0", "on 2024-01-01 extra", "\xff\xfe on", " "}
+		if k := t.Biased(len(contents), 1, 2); k > 0 {
+			os.MkdirAll(w.tele, 0777)
+			os.WriteFile(filepath.Join(w.tele, "mode"), []byte(contents[k]), 0666)
+			s.Probe("mode-file-as-found")
+		}
+	}
 	nprocs := 1 + t.Biased(2, 2, 3)
 	pool := namePool(t, 2+t.Draw(4), false)
 	// In a quarter of the workloads enough long names that the file has to grow
